@@ -21,5 +21,9 @@ meta = {
     "confirmed": "tools/seedcheck.sh: patch applies on /repo HEAD, go build ok, baseline suite unchanged (only TestParseRedirAddr fails), demo FAILS with the patch and PASSES without it",
     "detected_by": caught,
 }
+if os.environ.get("SEED_BASE"):
+    # the patch was written against this commit of /repo and no longer applies to later ones (a later fix: commit
+    # rewrote the same lines); seedsweep applies it there
+    meta["base"] = os.environ["SEED_BASE"]
 json.dump(meta, open(os.path.join(d, "meta.json"), "w"), indent=1)
 print("saved", d, os.listdir(d))
